@@ -161,6 +161,9 @@ def d1_progress(ctx, idx):
                     tests.append((s, flag, edge))
         # the end-of-round test is the one that is not inside a loop nested in the while
         round_tests = [t for t in tests if X.enclosing_loop(t[0]) is w]
+        if not round_tests:
+            if _size_progress(r, fi, cfg, w, wt, pending):
+                return
         if len(round_tests) != 1:
             raise AnalysisError('gen_symbols_samples: expected one end-of-round test of a progress flag, found %d' % len(round_tests))
         tstmt, flag, noprog_edge = round_tests[0]
@@ -217,39 +220,89 @@ def d1_progress(ctx, idx):
                     '`%s = True` can be reached in a round that removed nothing from %s (%s): such a round repeats forever'
                     % (flag, pending, 'no removal from %s exists' % pending if not removals else 'the removal is skipped on some path'),
                     lib.loc(fi, (bad or sets)[0].ast), expected='del %s[symbol] before %s = True' % (pending, flag))
-        # (c) the no-progress branch always raises
-        branch = tstmt.body if noprog_edge == 'true' else tstmt.orelse
-        if not branch:
-            raise AnalysisError('the no-progress branch of `%s` is empty' % short(tstmt.test))
-        first = [s for s in branch if not (isinstance(s, ast.Expr) and isinstance(s.value, ast.Constant))]
-        starts = cfg.nodes_of(first[0]) if first else []
-        if not starts:
-            raise AnalysisError('no CFG node for the first statement of the no-progress branch')
-        reach = cfg.reach(starts)
-        escapes = []
-        if wt in reach:
-            escapes.append('goes on to the next round')
-        if cfg.exit_return in reach:
-            escapes.append('returns')
-        after = [n for n in reach if n.ast is not None and n.kind in ('stmt', 'test', 'for') and not _in_subtree(n.ast, tstmt)
-                 and n is not wt]
-        if after and not escapes:
-            escapes.append('continues with `%s`' % short(after[0].ast, 50))
-        r.check(not escapes, 'gen_symbols_samples: a round without progress always raises',
-                'no path from the no-progress branch reaches the loop head, a return or later statements',
-                'a path of the no-progress branch %s: circular or undefined dependencies %s' % (
-                    ' / '.join(escapes), 'make the loop spin forever' if 'goes on to the next round' in escapes else 'yield a value'),
-                where, expected='raise ConfigError on every path')
-        raises = [n.ast for n in reach if n.kind == 'stmt' and isinstance(n.ast, ast.Raise)]
-        classes = sorted({nf.exc_class_name(x.exc) or 're-raise' for x in raises})
-        if not raises:
-            if not escapes:
-                raise AnalysisError('no raise statement in the no-progress branch')
-        else:
-            bad = [c for c in classes if c != 'ConfigError']
-            r.check(not bad, 'gen_symbols_samples: the no-progress branch raises ConfigError',
-                    'raises %s' % classes, 'circular/undefined dependencies are reported with %s instead of ConfigError' % bad,
-                    lib.loc(fi, raises[0]), expected='ConfigError', found=', '.join(classes))
+        _no_progress_raises(r, fi, cfg, w, wt, tstmt, noprog_edge, where)
+
+
+def _size_progress(r, fi, cfg, w, wt, pending):
+    """Progress detected by comparing the size of the pending dict before and after a round (progress <=> an element
+    was removed).  Returns False if that idiom is not present."""
+    sizes = {}
+    for s in w.body:
+        if isinstance(s, ast.Assign) and len(s.targets) == 1 and isinstance(s.targets[0], ast.Name) \
+                and X.m("len(%s)" % pending, s.value) is not None:
+            sizes[s.targets[0].id] = s
+    found = None
+    for s in w.body:
+        if not isinstance(s, ast.If):
+            continue
+        t = nf.canon(s.test)
+        for n in sizes:
+            if X.m("len(%s) == %s" % (pending, n), t) is not None or X.m("%s <= len(%s)" % (n, pending), t) is not None:
+                found = (s, n, 'true')
+            elif X.m("len(%s) != %s" % (pending, n), t) is not None or X.m("len(%s) < %s" % (pending, n), t) is not None:
+                found = (s, n, 'false')
+    if found is None:
+        return False
+    tstmt, n, noprog_edge = found
+    rec = sizes[n]
+    in_loop = [x for x in cfg.nodes if x.ast is not None and x.kind == 'stmt' and _in_subtree(x.ast, w)]
+    removals = [x for x in in_loop if _removes_from(x.ast, pending)]
+    additions = [x for x in in_loop if isinstance(x.ast, ast.Assign) and any(
+        isinstance(t_, ast.Subscript) and X.is_name(t_.value, pending) for t_ in x.ast.targets)]
+    if additions or [x for x in in_loop if x.ast is not rec and isinstance(x.ast, (ast.Assign, ast.AugAssign)) and n in X.assigned_names(x.ast)]:
+        raise AnalysisError('the pending dict grows / the recorded size is rewritten inside the loop')
+    tnode = [x for x in cfg.nodes_of(tstmt) if x.kind == 'test'][0]
+    recn = cfg.nodes_of(rec)
+    where = lib.loc(fi, tstmt)
+    reach = cfg.reach([wt], blocked=recn, include_starts=False, blocked_edges=[(wt, 'false')])
+    r.check(tnode not in reach and not any(x in reach for x in removals),
+            'gen_symbols_samples: the size of the pending dict is recorded at the start of every round',
+            '`%s = len(%s)` precedes every removal and the end-of-round test' % (n, pending),
+            'a round can remove dependents or reach the end-of-round test before `%s = len(%s)` is recorded: progress is compared '
+            'against a stale size' % (n, pending), lib.loc(fi, rec))
+    r.ok('gen_symbols_samples: progress recorded for one dependent is kept until the end of the round',
+         'progress is the decrease of len(%s): it cannot be forgotten within a round' % pending, where)
+    r.check(bool(removals), 'gen_symbols_samples: progress means that a pending dependent was removed',
+            'len(%s) decreases exactly by the removals' % pending,
+            'nothing is ever removed from %s: every round counts as "no progress"' % pending, where)
+    _no_progress_raises(r, fi, cfg, w, wt, tstmt, noprog_edge, where)
+    return True
+
+
+def _no_progress_raises(r, fi, cfg, w, wt, tstmt, noprog_edge, where):
+    # (c) the no-progress branch always raises
+    branch = tstmt.body if noprog_edge == 'true' else tstmt.orelse
+    if not branch:
+        raise AnalysisError('the no-progress branch of `%s` is empty' % short(tstmt.test))
+    first = [s for s in branch if not (isinstance(s, ast.Expr) and isinstance(s.value, ast.Constant))]
+    starts = cfg.nodes_of(first[0]) if first else []
+    if not starts:
+        raise AnalysisError('no CFG node for the first statement of the no-progress branch')
+    reach = cfg.reach(starts)
+    escapes = []
+    if wt in reach:
+        escapes.append('goes on to the next round')
+    if cfg.exit_return in reach:
+        escapes.append('returns')
+    after = [n for n in reach if n.ast is not None and n.kind in ('stmt', 'test', 'for') and not _in_subtree(n.ast, tstmt)
+             and n is not wt]
+    if after and not escapes:
+        escapes.append('continues with `%s`' % short(after[0].ast, 50))
+    r.check(not escapes, 'gen_symbols_samples: a round without progress always raises',
+            'no path from the no-progress branch reaches the loop head, a return or later statements',
+            'a path of the no-progress branch %s: circular or undefined dependencies %s' % (
+                ' / '.join(escapes), 'make the loop spin forever' if 'goes on to the next round' in escapes else 'yield a value'),
+            where, expected='raise ConfigError on every path')
+    raises = [n.ast for n in reach if n.kind == 'stmt' and isinstance(n.ast, ast.Raise)]
+    classes = sorted({nf.exc_class_name(x.exc) or 're-raise' for x in raises})
+    if not raises:
+        if not escapes:
+            raise AnalysisError('no raise statement in the no-progress branch')
+    else:
+        bad = [c for c in classes if c != 'ConfigError']
+        r.check(not bad, 'gen_symbols_samples: the no-progress branch raises ConfigError',
+                'raises %s' % classes, 'circular/undefined dependencies are reported with %s instead of ConfigError' % bad,
+                lib.loc(fi, raises[0]), expected='ConfigError', found=', '.join(classes))
 
 
 def _removes_from(stmt, name):
@@ -1258,7 +1311,7 @@ def d6_siblings(ctx, idx):
         EXS = X.aliases(fn, EX)
         ext = False
         empty_branch = False
-        for s in branches:
+        for s in list(branches):
             body = [x for x in _body(s.body) if not isinstance(x, ast.Pass)]
             if not body:
                 empty_branch = True
@@ -1270,7 +1323,36 @@ def d6_siblings(ctx, idx):
                     ext = True
                 if isinstance(x, ast.Assign) and any(isinstance(t, ast.Name) and t.id in EXS for t in x.targets):
                     ext = True
+        table_ok = False
         if not branches:
+            # a dispatch table of (type, extractor) pairs tested in order
+            for lp in [l for l in walk_own(fn) if isinstance(l, ast.For) and isinstance(l.target, ast.Tuple) and len(l.target.elts) == 2
+                       and all(isinstance(t, ast.Name) for t in l.target.elts)]:
+                tbl = lp.iter
+                val = None
+                if isinstance(tbl, ast.Attribute) and isinstance(tbl.value, ast.Name) and tbl.value.id in ('self', 'cls') and fi.cls is not None:
+                    ci, val = idx.lookup_attr(fi.cls, tbl.attr)
+                elif isinstance(tbl, ast.Name):
+                    vals = fi.module.assigns.get(tbl.id, []) or lib.assigned_value(fn, tbl.id)
+                    val = vals[0] if len(vals) == 1 else None
+                elif isinstance(tbl, (ast.Tuple, ast.List)):
+                    val = tbl
+                kind, extract = lp.target.elts[0].id, lp.target.elts[1].id
+                uses = X.find_exprs(lp, "isinstance(_E, %s)" % kind, own=False) and any(
+                    isinstance(c, ast.Call) and isinstance(c.func, ast.Attribute) and c.func.attr in ('extend', 'append')
+                    and isinstance(c.func.value, ast.Name) and c.func.value.id in EXS and X.find_exprs(c, "%s(_E)" % extract, own=False)
+                    for c in ast.walk(lp))
+                if not uses or not isinstance(val, (ast.Tuple, ast.List)):
+                    continue
+                for pair in val.elts:
+                    if isinstance(pair, (ast.Tuple, ast.List)) and len(pair.elts) == 2 and X.is_name(pair.elts[0], 'dict') \
+                            and isinstance(pair.elts[1], ast.Lambda) and any(
+                                isinstance(a_, ast.Attribute) and a_.attr in ('values', 'items') for a_ in ast.walk(pair.elts[1].body)):
+                        table_ok = True
+                        branches = [lp]
+        if table_ok:
+            r.ok(construct, 'dispatch table: dict -> its values', lib.loc(fi, branches[0]))
+        elif not branches:
             r.undecided(construct, 'no isinstance(entry, dict) branch before generate_variable_list', fi.loc)
         elif ext:
             r.ok(construct, 'dict values are added to the expressions', lib.loc(fi, branches[0]))
@@ -1442,6 +1524,10 @@ MUTANTS = [
 ]
 
 BENIGN = [
+    Benign('regexp-from-format-template', MH, "    regexp = (r\"^((\" + head_list + \")\"  # Start and match any head (capture full string, head)\n              r\"_{\"  # match _{\n              r\"(?:[-]?[1-9]\\d*|0)\"  # match number pattern\n              r\"})$\")  # match closing }, close group, and end of string\n",
+           "    regexp = r'^(({heads})_{{{number}}})$'.format(heads=head_list, number=r'(?:[-]?[1-9]\\d*|0)')\n"),
+    Benign('progress-by-size-comparison', SAMPLING, "            progress_made = False\n            for symbol, dependencies in list(unevaluated_dependents.items()):\n                if is_subset(dependencies, sample_dict):\n                    sample_dict[symbol] = sample_from[symbol].compute_sample(\n                        sample_dict, functions, suffixes)\n                    del unevaluated_dependents[symbol]\n                    progress_made = True\n\n            if not progress_made:",
+           "            waiting = len(unevaluated_dependents)\n            for symbol, dependencies in list(unevaluated_dependents.items()):\n                if is_subset(dependencies, sample_dict):\n                    sample_dict[symbol] = sample_from[symbol].compute_sample(\n                        sample_dict, functions, suffixes)\n                    del unevaluated_dependents[symbol]\n\n            if len(unevaluated_dependents) == waiting:"),
     Benign('match-guard-clause', MH, "            if match:\n                # This variable is a numbered_variable\n                # Go and add it to variable_list with the appropriate sampler\n                (full_string, head) = match.groups()\n                variable_list.append(full_string)\n                sample_from_dict[full_string] = sample_from_dict[head]\n",
            "            if match is None:\n                continue\n            (full_string, head) = match.groups()\n            variable_list.append(full_string)\n            sample_from_dict[full_string] = sample_from_dict[head]\n"),
     Benign('sibling-loop-over-items', MH, "                    for k in entry:\n                        variables.append(k)\n                        if entry[k] == '':\n                            raise MissingInput('Cannot grade answer, a required input is missing.')\n                        sample_from_dict[k] = DependentSampler(formula=entry[k])\n",
